@@ -424,10 +424,7 @@ def rule_allocate(rep):
             rep.ob(R, name, False, "default method not found", "src/lib.rs")
             continue
         fn = fn[0]
-        env = {}
-        for s in fn["body"]["stmts"]:
-            if s["k"] == "let" and s["pat"]["k"] == "pident" and s.get("init") is not None:
-                env[s["pat"]["name"]] = s["init"]
+        env = ir.let_env(fn)
         tail = fn["body"]["stmts"][-1]
         ok = False
         if tail["k"] == "expr" and tail["e"].get("k") == "call" and is_path(tail["e"]["f"], "make_buffer") and len(tail["e"]["args"]) == 3:
